@@ -21,7 +21,7 @@ Section Schedule.
 
   Variable sampling : bool.
   Variables os p0 : nat.
-  Hypothesis Hos : 1 <= os.
+  Hypothesis Hos : sampling = true -> 1 <= os.
   Hypothesis Hp0 : 1 <= p0.
   Variable input : list A.
   Hypothesis Hn : 2 <= length input.
